@@ -34,7 +34,7 @@ L['C01'] = dict(modules=['Schc.Properties.C01'], level='proof', technique='Lean 
               T('C01_sctp_compute', 'full', 'SCTP packets with a valid CRC-32c: round trip with the checksum computed'),
               T('C01_unparser_roundtrip', 'full', 'decompress with an unparser returns the concatenation of what PacketParser.unparse makes of the parsed fields + payload (any unparser; lossless pairings, no compute)'),
               T('C01_end_to_end', 'full', 'from the bytes on the wire: every factory stack, every buffer its parser accepts, manager compress then decompress returns the buffer (C07 joined with C01_manager)')],
-    level_text='Proved over the model for all packets/rules/rule sets under the stated hypotheses: fields+payload spell the raw packet (C07), bare functions without the direction argument: descriptors all apply to the packet direction; with the argument (C18_roundtrip, C01_manager): any rule, pairings equal/not-sent, ignore/value-sent, MSB/LSB, match-mapping/mapping-sent with Fits. Compute fields: C01_roundtrip_compute reduces the round trip to the compute functions regenerating the elided values, and C01_ipv6_udp_compute / C01_ipv4_udp_compute discharge that for the IPv6/UDP and IPv4/UDP stacks (any subset of the computable fields, valid packets; concrete valid packets are kernel-checked examples). C01_sctp_compute does the same for the SCTP checksum. So every registered compute function is covered at its stack position.')
+    level_text='Proved over the model for all packets/rules/rule sets under the stated hypotheses: fields+payload spell the raw packet (C07), bare functions without the direction argument: descriptors all apply to the packet direction; with the argument (C18_roundtrip, C01_manager): any rule, pairings equal/not-sent, ignore/value-sent, MSB/LSB, match-mapping/mapping-sent with Fits. Compute fields: C01_roundtrip_compute reduces the round trip to the compute functions regenerating the elided values, and C01_ipv6_udp_compute / C01_ipv4_udp_compute discharge that for the IPv6/UDP and IPv4/UDP stacks (any subset of the computable fields, valid packets; concrete valid packets are kernel-checked examples). C01_sctp_compute does the same for the SCTP checksum. So every registered compute function is covered at its stack position. C01_end_to_end starts from the bytes on the wire (parser of any factory stack, manager compress, manager decompress). The path with an unparser (packets parsed with CoAP options in semantic mode) is C01_unparser_roundtrip and, joined with the parsers, C19_stack_roundtrip / C19_stack_roundtrip_compute / C19_stack_roundtrip_compute4; three genuine defects on that path were repaired in /repo (b58412f, 858b849, d76d13d).')
 L['C04'] = dict(modules=['Schc.Properties.C04'], level='proof', technique='Lean 4 theorem: matcher = filter by the declarative applicability predicate',
     theorems=[T('C04_match', 'full', 'match_packet_descriptor = rules.filter Spec.applicable (soundness, completeness, order)'),
               T('C04_field', 'full', 'one field vs one descriptor, all four operators'), T('C04_first', 'full', 'the first yielded rule'),
@@ -178,7 +178,7 @@ L['C06'] = dict(modules=['Schc.Properties.C06'], level='proof', technique='Lean 
               T('C06_chunks_zero', 'full', 'chunks(0) raises')],
     level_text='Proved for bit strings of every length, both sides, every shift amount (any integer) and every chunk size. Tie as for C05. Python ints are unbounded Nat in the model (exact).')
 
-L['C19'] = dict(modules=['Schc.Properties.C19'], level='proof', technique='Lean 4 lockstep simulation of the two option walks of _parse_options and inversion of CoAPParser.unparse (tables read from coap.py)',
+L['C19'] = dict(modules=['Schc.Properties.C19'], level='proof', technique='Lean 4 lockstep simulation of the two option walks of _parse_options, inversion of CoAPParser.unparse (tables read from coap.py), and the substring dispatch of PacketParser.unparse reduced to one segment per header parser (id facts decided on regenerated tables; a string lemma for OPTION_UNKNOWN(n), every n)',
     theorems=[T('C19_lossless', 'full', 'semantic parse then unparse = syntactic (id, value) sequence, for every LEFT-padded message with no reserved nibble 15; both parses succeed together on the same bytes'),
               T('C19_parse_decided', 'full', 'the syntactic parse terminates (ok or ParserError) with the fuel used'),
               T('C19_option', 'full', 'one option, all delta/length ranges and boundaries, empty and non-empty values'),
